@@ -344,9 +344,16 @@ class CertificateAuth:
         """
         try:
             parsed = urlparse(request_url)
-            return parsed.path or "/"
+            path = parsed.path or "/"
         except Exception:
             return "/"
+        # Titan URLs carry their parameters after the first ';'
+        if parsed.scheme == "titan":
+            path = path.split(";", 1)[0] or "/"
+        # Match rules against the same canonical form the handlers serve from
+        from ..utils.url import canonical_path
+
+        return canonical_path(path)
 
     def _find_matching_rule(self, path: str) -> CertificateAuthPathRule | None:
         """Find the first matching path rule.
@@ -381,24 +388,29 @@ class CertificateAuth:
         # Extract path from URL
         path = self._extract_path(request_url)
 
-        # Find matching rule (first match wins)
-        rule = self._find_matching_rule(path)
+        # A path without trailing slash may name a file or a directory (which is
+        # then served from "<path>/"): the request must satisfy the rules for both.
+        candidates = [path] if path.endswith("/") else [path, path + "/"]
 
-        if rule is None:
-            # No rule matches - allow without cert
-            return True, None
+        for candidate in candidates:
+            # Find matching rule (first match wins)
+            rule = self._find_matching_rule(candidate)
 
-        # Apply rule's requirements
-        if rule.require_cert and client_cert_fingerprint is None:
-            return False, "60 Client certificate required\r\n"
+            if rule is None:
+                # No rule matches - allow without cert
+                continue
 
-        if rule.allowed_fingerprints is not None:
-            if client_cert_fingerprint is None:
-                # Whitelist requires a cert
+            # Apply rule's requirements
+            if rule.require_cert and client_cert_fingerprint is None:
                 return False, "60 Client certificate required\r\n"
 
-            if client_cert_fingerprint not in rule.allowed_fingerprints:
-                return False, "61 Certificate not authorized\r\n"
+            if rule.allowed_fingerprints is not None:
+                if client_cert_fingerprint is None:
+                    # Whitelist requires a cert
+                    return False, "60 Client certificate required\r\n"
+
+                if client_cert_fingerprint not in rule.allowed_fingerprints:
+                    return False, "61 Certificate not authorized\r\n"
 
         return True, None
 
